@@ -303,7 +303,7 @@ def gen(ctx):
     cases = []
     for control in (False, True):
         cases.append(f15_script(rng, consts, control))
-    n_rand, n_adv, n_deep, n_script = (170, 60, 28, 8) if quick else (4000, 1500, 500, 120)
+    n_rand, n_adv, n_deep, n_script = (170, 60, 28, 8) if quick else (3000, 1000, 400, 100)
     for _ in range(n_script):
         cases += [timeout_script(rng, consts), saturate_script(rng, consts), liveness_script(rng, consts),
                   f15_script(rng, consts, rng.random() < 0.3)]
@@ -316,8 +316,8 @@ def gen(ctx):
     if quick:
         cases += exhaustive_cases(rng, consts, 3, 120)
     else:
-        cases += exhaustive_cases(rng, consts, 3, 2000) + exhaustive_cases(rng, consts, 4, 6000) \
-            + exhaustive_cases(rng, consts, 5, 4000)
+        cases += exhaustive_cases(rng, consts, 3, 2000) + exhaustive_cases(rng, consts, 4, 5000) \
+            + exhaustive_cases(rng, consts, 5, 3000)
     return cases
 
 
